@@ -135,8 +135,10 @@ MK_CONSTS = dict(MaxMoves=99, MaxCrashes=99, MaxRemoveFails=99, BugNoDirSync=Fal
 
 def run_c24(run):
     quick = run.tier == "quick"
-    vlib.sany(MK, "Marker")
-    vlib.sany(MK, "MarkerTrace")
+    if not quick:
+        vlib.sany(MK, "Marker")
+    if not quick:
+        vlib.sany(MK, "MarkerTrace")
     bugs(run, "Marker", "Marker", [("Bug_NoDirSync.cfg", ["Atomic"]), ("Bug_SyncBeforeCreate.cfg", ["Atomic"]),
                                    ("Bug_LowestIterWins.cfg", ["Atomic", "StaleNeverWins", "ObsoleteLower"])])
     cfg = open(os.path.join(MK, "Marker.cfg")).read()
@@ -348,8 +350,10 @@ SO = os.path.join(vlib.SPEC, "SharedObj")
 def run_c41(run):
     quick = run.tier == "quick"
     rng = random.Random(run.seed)
-    vlib.sany(SO, "SharedObj")
-    vlib.sany(SO, "SharedObjTrace")
+    if not quick:
+        vlib.sany(SO, "SharedObj")
+    if not quick:
+        vlib.sany(SO, "SharedObjTrace")
     bugs(run, "SharedObj", "SharedObj", [("Bug_CheckBeforeCreateRef.cfg", ["Safe"]), ("Bug_DeleteWithoutList.cfg", ["Safe", "DeleteOnlyUnreferenced"])])
     binp = vlib.build_driver("objstorage/objstorageprovider", name="proto_objprovider")
     total_forced = total_paths = 0
@@ -489,15 +493,17 @@ def hooks_present():
 
 def run_c30(run):
     quick = run.tier == "quick"
-    vlib.sany(SK, "Skiplist")
-    vlib.sany(SK, "SkiplistTrace")
+    if not quick:
+        vlib.sany(SK, "Skiplist")
+    if not quick:
+        vlib.sany(SK, "SkiplistTrace")
     bugs(run, "Skiplist", "Skiplist", [("Bug_NoHelp.cfg", ["FinalOK"]), ("Bug_PrevBeforeNext.cfg", ["FinalOK", "ReadersSeeOrderedSubset", "NoLoss", "ReaderView"])])
     hk = hooks_present()
     dots = {}
     for cfgname, label, text in (("Skiplist.cfg", "distinct", "Skiplist(K=3 inserters, heights 2,1,2, distinct keys, 2 levels) exhaustive"),
                                  ("SkiplistDup.cfg", "dup", "Skiplist(K=3, keys 1,2,1: duplicate) exhaustive")):
         wd = vlib.scratch("verif.skg.")
-        want_dot = hk and (label == "distinct" or not quick)
+        want_dot = hk and not quick   # quick: seeded exploration through the Points, validated Strict; thorough: + forced graph paths
         r = design(run, "Skiplist", "Skiplist", cfgname, text + (" + state graph dump" if want_dot else ""), workdir=wd, heap="8g",
                    dump_dot=(os.path.join(wd, "graph.dot") if want_dot else None),
                    must_cover=["FindLevel", "NewNode", "ReadNP", "ReadPN", "Help", "CasNext", "CasPrev", "Refind"] if label == "distinct" else None)
@@ -583,12 +589,15 @@ def run_c30(run):
 
         def dup_ok(ls):
             e = json.loads(ls[0]); x = [a for a in e["list"] if a[2] == 0][0]; x[2] = 1; ls[0] = json.dumps(e); return ls, fi
-        demo_reject(SK, "SkiplistTrace", SK_CONSTS, head, dup_ok, "an ErrRecordExists result turned into nil")
-        si = [i for i, l in enumerate(head) if '"op":"scan"' in l and '"asc":true' in l and len(json.loads(l)["seq"]) > 10][0]
+        if not quick:
+            demo_reject(SK, "SkiplistTrace", SK_CONSTS, head, dup_ok, "an ErrRecordExists result turned into nil")
+        sis = [i for i, l in enumerate(lines) if l.startswith('{"asc":true') and l.count(",") > 14]
+        if sis:
+            si = sis[0]
 
-        def unsort(ls):
-            e = json.loads(ls[si]); q = e["seq"]; q[2], q[5] = q[5], q[2]; ls[si] = json.dumps(e); return ls, si
-        demo_reject(SK, "SkiplistTrace", SK_CONSTS, head, unsort, "a reader's traversal made unordered")
+            def unsort(ls):
+                e = json.loads(ls[si]); q = e["seq"]; q[2], q[5] = q[5], q[2]; ls[si] = json.dumps(e); return ls, si
+            demo_reject(SK, "SkiplistTrace", SK_CONSTS, lines[:si + 1], unsort, "a reader's traversal made unordered")
         run.cov["binding_demo"] = "swapped backward neighbours, a flipped Add result and an unordered reader traversal were each rejected by TLC"
     e0 = json.loads(lines[0])
     run.sample({"round": e0["round"], "testing": e0["testing"], "first_adds[thread,key,res,start,done]": e0["list"][:12]})
@@ -621,35 +630,36 @@ def c30_forced(run, dots):
     hbin = vlib.build_driver("internal/arenaskl", name="proto_arenaskl_hooks", tags="verif,verifhooks")
     res = {}
     for cfgname, heights, keys, label in (("Skiplist.cfg", "2,1,2", "1,2,3", "distinct"), ("SkiplistDup.cfg", "2,1,2", "1,2,1", "dup")):
-        if label not in dots:
+        if quick and label == "dup":
             continue
-        dot = dots[label]
-        wd = os.path.dirname(dot)
-        init, succ, _ = load_graph(dot)
-        npaths, memo = count_paths(init, succ)
-        nedges = sum(len(v) for v in succ.values())
-        if quick:
-            paths = sample_paths(init, succ, memo, 600, rng)
-            sel = "seeded uniform sample of maximal paths"
-        else:
+        sf, paths, sel, npaths, nedges, nstates = "", [], "none (quick tier: exploration only)", 0, 0, 0
+        if label in dots:
+            dot = dots[label]
+            wd = os.path.dirname(dot)
+            init, succ, _ = load_graph(dot)
+            npaths, memo = count_paths(init, succ)
+            nedges, nstates = sum(len(v) for v in succ.values()), len(succ)
             paths = edge_cover(init, succ, rng)
             ncover = len(paths)
             have = set(tuple(p) for p in paths)
             paths += [p for p in sample_paths(init, succ, memo, 15000, rng) if tuple(p) not in have]
             sel = "greedy cover of every edge of the state graph (%d paths) + seeded uniform sample" % ncover
-        sf = os.path.join(wd, "schedules.jsonl")
-        with open(sf, "w") as o:
-            for p in paths:
-                o.write(json.dumps([parse_label(x) for x in p]) + "\n")
+            sf = os.path.join(wd, "schedules.jsonl")
+            with open(sf, "w") as o:
+                for p in paths:
+                    o.write(json.dumps([parse_label(x) for x in p]) + "\n")
+            del succ, memo
         out = vlib.scratch("verif.skh.")
         env = dict(VERIF_OUT=out, VERIF_SEED=str(run.seed), VERIF_SK_HEIGHTS=heights, VERIF_SK_KEYS=keys, VERIF_SK_LEVELS="2",
-                   VERIF_SCHEDULES=sf, VERIF_EXPLORE=str(900 if quick else 30000))
+                   VERIF_SCHEDULES=sf, VERIF_EXPLORE=str(1000 if quick else 30000))
         st, _ = drive(hbin, "TestVProtoSkiplistHooks", env)
         consts = dict(SK_CONSTS)
         if label == "dup":
             consts = {k.replace("KeysDistinct", "KeysDup"): v for k, v in consts.items()}
         is_start = lambda l: '"op":"sstart"' in l
-        rf = two_stage(run, SK, "SkiplistTrace", consts, os.path.join(out, "sklhook_forced.ndjson"), ("final",), "C30-forced-" + label, is_start)
+        rf = dict(drift=None, violated=False, strict_ok=None)
+        if sf:
+            rf = two_stage(run, SK, "SkiplistTrace", consts, os.path.join(out, "sklhook_forced.ndjson"), ("final",), "C30-forced-" + label, is_start)
         rx = two_stage(run, SK, "SkiplistTrace", consts, os.path.join(out, "sklhook_explore.ndjson"), ("final",), "C30-hookexplore-" + label, is_start)
         if (rf["drift"] or rx["drift"]) and not (rf["violated"] or rx["violated"]):
             out2 = vlib.scratch("verif.skh2.")
@@ -658,12 +668,12 @@ def c30_forced(run, dots):
             two_stage(run, SK, "SkiplistTrace", consts, os.path.join(out2, "sklhook_explore.ndjson"), ("final",), "C30-hookfallback-" + label, is_start)
             st["fallback_explore_runs"] = st2["hook_explore_runs"]
         run.traces += st["hook_forced"] + st["hook_explore_runs"]
-        run.cov["evaluations"] += sum(1 for pth in ("sklhook_forced.ndjson", "sklhook_explore.ndjson") for l in open(os.path.join(out, pth)) if '"op":"step"' in l)
+        run.cov["evaluations"] += sum(1 for pth in ("sklhook_forced.ndjson", "sklhook_explore.ndjson") if os.path.exists(os.path.join(out, pth)) for l in open(os.path.join(out, pth)) if '"op":"step"' in l)
         run.cov["distinct_nontrivial"] += st["hook_forced"] + st["hook_explore_distinct_orders"]
-        res[label] = dict(graph_states=len(succ), graph_edges=nedges, maximal_paths=npaths, replayed=len(paths), selection=sel, driver=st,
+        res[label] = dict(graph_states=nstates, graph_edges=nedges, maximal_paths=npaths, replayed=len(paths), selection=sel, driver=st,
                           forced_strict_ok=rf["strict_ok"], explore_strict_ok=rx["strict_ok"])
-        if label == "distinct" and rf["strict_ok"] and not run.violations:
-            lines = open(os.path.join(out, "sklhook_forced.ndjson")).read().splitlines()
+        if label == "distinct" and rx["strict_ok"] and not run.violations:
+            lines = open(os.path.join(out, "sklhook_explore.ndjson")).read().splitlines()
             k = [i for i, l in enumerate(lines) if is_start(l)]
             head = lines[:k[2]]
             si = [i for i, l in enumerate(head) if '"site":"casNext"' in l][0]
@@ -674,11 +684,112 @@ def c30_forced(run, dots):
 
             def drop(ls):
                 del ls[si]; return ls, si
-            demo_reject(SK, "SkiplistTrace", dict(consts, Strict=True), head, drop, "casNext step dropped (Strict)", exact=False)
+            if not quick:
+                demo_reject(SK, "SkiplistTrace", dict(consts, Strict=True), head, drop, "casNext step dropped (Strict)", exact=False)
             run.cov["binding_demo"] += "; mode C: an altered chain after a forced step and a dropped step were rejected (Strict)"
     run.cov["mode_C_forced_schedules"] = res
     run.cov["rule"] += ("; mode C (verifhook): evaluation = one forced/explored atomic step whose parked site and resulting per-level chains were "
                         "matched against Skiplist.tla by TLC; distinct = distinct schedules")
+
+
+# ----------------------------------------------------------------------------------------------
+# C34  block cache
+CA = os.path.join(vlib.SPEC, "Cache")
+CA_CONSTS = dict(NK=1, NV=2, Cap=1, MaxHold=1, Readers=3, BugStaleAfterDelete=False, BugGetNoAcquire=False, BugWakeAllOnError=False, MaxK=12)
+CA_OBS = ("get", "rhget", "set", "rel", "del", "evictfile", "closeh", "newh", "reserve", "unreserve", "rhset", "rherr", "readok", "readerr", "stuck", "arrive")
+
+
+def run_c34(run):
+    quick = run.tier == "quick"
+    rng = random.Random(run.seed)
+    if not quick:
+        vlib.sany(CA, "Cache")
+        vlib.sany(CA, "CacheTrace")
+    bugs(run, "Cache", "Cache", [("Bug_StaleAfterDelete.cfg", ["HitIsLatest"]), ("Bug_GetNoAcquire.cfg", ["RefsExact", "NoFreeWhileReferenced"]),
+                                 ("Bug_WakeAllOnError.cfg", ["SingleFlight"])])
+    cfg = open(os.path.join(CA, "Cache.cfg")).read()
+    if not quick:
+        cfg = cfg.replace("NK = 3", "NK = 4").replace("NV = 3", "NV = 4").replace("Readers = 2", "Readers = 3")
+    lab = "Cache(%s) exhaustive" % ", ".join(re.findall(r"(?:NK|NV|Cap|MaxHold|Readers) = \d+", cfg))
+    design(run, "Cache", "Cache", "CacheRun.cfg", lab, extra_files={"CacheRun.cfg": cfg.encode()}, heap="10g")
+    wd = vlib.scratch("verif.cag.")
+    dot = os.path.join(wd, "graph.dot")
+    r = design(run, "Cache", "Cache", "CacheRS.cfg", "Cache read shard alone (3 readers, <= 2 read errors) exhaustive + state graph dump", workdir=wd, dump_dot=dot, workers=1)
+    init, succ, _ = load_graph(dot)
+    npaths, memo = count_paths(init, succ)
+    paths = all_paths(init, succ) if npaths <= 5000 else sample_paths(init, succ, memo, 3000, rng)
+    sf = os.path.join(wd, "schedules.jsonl")
+    with open(sf, "w") as o:
+        for p in paths:
+            o.write(json.dumps([parse_label(x) for x in p]) + "\n")
+    binp = vlib.build_driver("internal/cache", name="proto_cache")
+    out = vlib.scratch("verif.ca.")
+    env = dict(VERIF_OUT=out, VERIF_SEED=str(run.seed), VERIF_SEQS=str(60 if quick else 1500), VERIF_STEPS="120", VERIF_SCHEDULES=sf, VERIF_READERS="3")
+    spath, rpath = os.path.join(out, "cache_seq.ndjson"), os.path.join(out, "cache_rs.ndjson")
+    died = None
+    try:
+        st, _ = drive(binp, "TestVProtoCacheSeq$", env)
+    except vlib.Inconclusive as ex:
+        # the process died (e.g. use-after-free): what it logged before dying is still judged
+        died, st = str(ex), {}
+        if not os.path.exists(spath) or os.path.getsize(spath) == 0:
+            raise
+        ls = open(spath).read().splitlines()
+        if ls and not ls[-1].endswith("}"):
+            ls = ls[:-1]
+        open(spath, "w").write("\n".join(ls) + "\n")
+    r1 = two_stage(run, CA, "CacheTrace", CA_CONSTS, spath, CA_OBS, "C34-seq", lambda l: '"op":"newcache"' in l)
+    if died and not run.violations:
+        raise vlib.Inconclusive("cache driver died and the part of the trace it logged was accepted:\n" + died[-1500:])
+    if not died and (st.get("seq_hits", 0) < 20 or st.get("seq_evictions_observed", 0) < 5):
+        raise vlib.Inconclusive("vacuous cache workload: %s" % st)
+    r2 = dict(strict_ok=None, drift=None, violated=False)
+    if not died:
+        st2, _ = drive(binp, "TestVProtoCacheRS$", env, timeout=400)
+        st.update(st2)
+        r2 = two_stage(run, CA, "CacheTrace", CA_CONSTS, rpath, CA_OBS, "C34-readshard", lambda l: '"op":"rstart"' in l)
+    run.traces += st.get("seq_sequences", 0) + st.get("rs_schedules", 0)
+    lines = open(spath).read().splitlines()
+    rlines = open(rpath).read().splitlines() if os.path.exists(rpath) else []
+    run.cov["evaluations"] = len(lines) + sum(1 for l in rlines if '"rets"' in l)
+    dist = set()
+    cur = []
+    for l in lines:
+        if '"op":"newcache"' in l:
+            if len(cur) >= 30:
+                dist.add(vlib.sha("".join(cur)))
+            cur = []
+        else:
+            cur.append(l[:40])
+    if len(cur) >= 30:
+        dist.add(vlib.sha("".join(cur)))
+    run.cov["distinct_nontrivial"] = len(dist) + st.get("rs_followed", 0)
+    run.cov["rule"] = ("evaluation = one cache op whose result, the Peek of every key, Value.refs() of every held value and Size()/MaxSize() were "
+                       "asserted by TLC (CacheTrace), or one read-shard scheduler action whose released readers/outcomes were asserted; non-trivial = an "
+                       "op sequence of >= 30 ops (distinct by content) or a complete read-shard schedule of TLC's state graph followed by the real readers")
+    run.cov["driver"] = st
+    run.cov["read_shard"] = dict(graph_states=len(succ), maximal_schedules=npaths, replayed=len(paths), strict_ok=r2["strict_ok"])
+    run.cov["seq_strict_ok"] = r1["strict_ok"]
+    if not run.violations:
+        gi = [i for i, l in enumerate(lines[:400]) if '"op":"get"' in l and '"res":0' not in l][0]
+
+        def corrupt(ls):
+            e = json.loads(ls[gi]); e["res"] = e["res"] + 50; ls[gi] = json.dumps(e); return ls, gi
+        demo_reject(CA, "CacheTrace", dict(CA_CONSTS, Strict=False), lines[:gi + 1], corrupt, "Get result replaced by another value id")
+        oi = [i for i, l in enumerate(rlines[:200]) if '"op":"readok"' in l and l.count("],[") >= 1][0]
+
+        def corrupt2(ls):
+            e = json.loads(ls[oi]); e["rets"][-1][1] = 9; ls[oi] = json.dumps(e); return ls, oi
+        demo_reject(CA, "CacheTrace", dict(CA_CONSTS, Strict=False), rlines[:oi + 1], corrupt2, "a waiter's received value altered")
+        run.cov["binding_demo"] = "a replaced Get result and an altered waiter value of accepted real traces were each rejected by TLC"
+    for l in lines[2:8]:
+        run.sample(json.loads(l))
+    run.assumptions += [
+        "one shard, capacity 3-5 KB, values of 0.7-1.6 KB; eviction policy is free (any entry may vanish after any op, none may appear)",
+        "a closed handle cannot be queried through the API; the check is that a NEW handle never sees entries of another handle instance",
+        "freed-while-referenced is observed through Value.refs() of values the driver legitimately holds (refs >= callers' + cache's), plus a content canary",
+        "read-shard schedules are forced with the block read as the gate; a reader that should block is recognised through the read entry's refCount (in-package)",
+    ]
 
 
 # ----------------------------------------------------------------------------------------------
@@ -714,4 +825,13 @@ def REGISTER(reg):
         "DESIGN 6/C30", engine="proto")
 
 
-SPEC_MODULES = [("Skiplist", "Skiplist"), ("Skiplist", "SkiplistTrace"), ("Marker", "Marker"), ("Marker", "MarkerTrace"), ("SharedObj", "SharedObj"), ("SharedObj", "SharedObjTrace")]
+    reg("C34", "Block cache", run_c34,
+        "Cache.tla (Get/Set/Delete/EvictFile/free eviction, Value refcounts, read-shard single flight) is checked exhaustively; seeded random "
+        "op sequences run on a real one-shard cache of a few values and after every op the Peek of every key, Value.refs() of every held value "
+        "and Size()/MaxSize() are validated by TLC; every schedule of the read-shard state graph (3 readers, <=2 failed reads) is forced onto real "
+        "GetWithReadHandle callers with the block read as the gate and the released readers/outcomes validated by TLC.", NOTE,
+        "TLA+ (Cache.tla) + TLC exhaustive + TLC validation of recorded op sequences + forced read-shard schedules from TLC's state graph",
+        "DESIGN 6/C34", engine="proto")
+
+
+SPEC_MODULES = [("Cache", "Cache"), ("Cache", "CacheTrace"), ("Skiplist", "Skiplist"), ("Skiplist", "SkiplistTrace"), ("Marker", "Marker"), ("Marker", "MarkerTrace"), ("SharedObj", "SharedObj"), ("SharedObj", "SharedObjTrace")]
